@@ -1,4 +1,5 @@
 import MorfuseModel.Sched.Machine
+import MorfuseModel.Sched.MachineHostProps
 /-!
 # C13 — nothing outlives its script: idle means empty, reset means clean
 
@@ -18,7 +19,8 @@ property C19's theorem `C19_freeall_each_once` (pool level, `lean/MorfuseModel/P
 Not proved (compared with the real engine on every run by tools/props/c13.py, with the trace monitor
 "idle ⇒ every pool, the timer and the queue are empty; a live thread ⇒ not idle; after Reset all
 pools are empty and scripts compile and run as if new"): that every live thread belongs to exactly
-one live instance through every cascade of the machine — the machine-level invariant is not proved.
+one live instance through every cascade of the machine (the thread ↔ instance-chain invariant).  The
+machine-level invariant about threads, timer and listener tables *is* proved; see the last section.
 -/
 namespace Morfuse.Sched
 
@@ -144,5 +146,94 @@ theorem C13_killInst_unlinks (s : State) (i : Nat) :
 /-! ### non-vacuity -/
 example : chainOf (removeFromInst { insts := [(1, [100, 101]), (2, [102])] } 100 1) 1 = [101] ∧
     hasInst (removeFromInst { insts := [(1, [100, 101]), (2, [102])] } 102 2) 2 = false := by decide
+
+/-! ## Machine level: quiescence of the whole scheduler machine, in every reachable state
+
+`Reachable s` (`Sched/MachineHost.lean`): produced from the initial state by any list of host operations
+of the driver (compile/recompile a `ProgOK` program, host calls, `advance`, `execute`, `step`,
+`reset-director`, `reset`, reading the output), **without `save`/`load`**; modulo running out of fuel.
+The statements rest on `iAll` (`Sched/MachineInvAll.lean`).
+
+Still not proved at machine level (compared with the engine after every command by tools/props/c13.py):
+the link between thread records and the *instance list* — "every thread with a VM is in the chain of
+exactly one listed instance, every listed instance has a non-empty chain" — through the cascades.  The
+engine's idle flag is "no listed instance and no posted event" (`idleFlag` below), so the two clauses that
+mention the flag are stated for the pools the invariant does speak about (thread records, VMs, timer,
+listener tables) and carry the suffix `_partial`. -/
+
+/-- the engine's `IsIdle()` as the driver prints it: no live script instance and no posted event -/
+def idleFlag (s : State) : Bool := s.insts.isEmpty && s.events.isEmpty
+
+/-- **Quiescent means empty, machine level (partial).**  In every reachable state in which no thread
+    record is live (every record, if any, is a dead thread whose VM is still unwinding) the timer is
+    empty and both listener tables are empty: no timed wait, no registration, no weak reference to a
+    thread survives the last thread.
+    *Missing for the full clause*: that the instance list is then empty too (⇒ `idleFlag`, given an
+    empty event queue) — needs the thread ↔ instance-chain invariant, not proved. -/
+theorem C13_machine_quiescent_means_empty_partial {s : State} (h : Reachable s) :
+    s.outOfFuel = true ∨
+      ((∀ t th, s.th? t = some th → th.dead = true) →
+        s.timer.elems = [] ∧ s.notify = [] ∧ s.waitFor = []) :=
+  (reachable_hinv h).map (fun hi hq => hi.inv.quiescent_empty hq)
+
+/-- **Suspended is not quiescent, machine level (partial).**  In every reachable state a thread that is
+    `timing` or `waiting` is a live thread (record present, not dead) with a live VM (present, not
+    destroyed), and it holds what will resume it: a timer element resp. a wait-for entry — so the thread
+    and VM pools and the timer / tables are not empty while a script is suspended.
+    *Missing for the full clause*: that its script instance is still in the instance list
+    (⇒ `idleFlag = false`) — needs the thread ↔ instance-chain invariant, not proved. -/
+theorem C13_machine_suspended_not_quiescent_partial {s : State} (h : Reachable s) :
+    s.outOfFuel = true ∨
+      ∀ t th, s.th? t = some th → (th.ts = .timing ∨ th.ts = .waiting) →
+        th.hasVM = true ∧ th.dead = false ∧ th.vm ≠ .destroyed ∧
+        (th.ts = .timing → t ∈ s.timer.elems.map (·.1)) ∧
+        (th.ts = .waiting → Tbl.hasOwner s.waitFor t = true) :=
+  (reachable_hinv h).map (fun hi _ _ hf hs => hi.inv.suspended_live hf hs)
+
+/-- **Between host operations nothing is executing, machine level.**  In every reachable state there is
+    no current thread and the native execution stack is empty (so the next `ExecuteRunning` is not
+    blocked), whatever ran nested inside the operations before. -/
+theorem C13_machine_nothing_running_between_ops {s : State} (h : Reachable s) :
+    s.outOfFuel = true ∨ (s.cur = none ∧ s.depth = 0) :=
+  (reachable_hinv h).map (fun hi => ⟨hi.cur, hi.depth⟩)
+
+/-- **`Reset()` keeps the machine consistent, machine level.**  After `director.Reset()` in a reachable
+    state (unless out of fuel) the machine invariant holds again with no program compiled: the state
+    is one from which compiling and calling behave as the theorems above say. -/
+theorem C13_machine_reset_consistent {s : State} (h : Reachable s) :
+    (hostReset s).outOfFuel = true ∨ (HInv (hostReset s) ∧ (hostReset s).prog = []) := by
+  have hr : Reachable (HostOp.apply s .resetDirector) := .step .resetDirector h trivial
+  exact (reachable_hinv hr).map (fun hi => ⟨hi, rfl⟩)
+
+/-! ### non-vacuity, machine level -/
+
+/-- two threads: 100 waits 5 ms, 101 waits on `level`; then the frame at clock 5 resumes 100, which
+    notifies 101; both end -/
+def demoQuiesce : List HostOp :=
+  [.script [[.thread 1, .wait 5, .notify 50 7], [.waittill 50 [7], .mark 2]] [0, 0], .call 0 [], .takeOut]
+
+theorem demoQuiesce_reachable (ops : List HostOp) (h : ∀ op ∈ ops, op.ok) : Reachable (runOps {} (demoQuiesce ++ ops)) :=
+  (reachable_iff _).2 ⟨demoQuiesce ++ ops, by
+    have h0 : ∀ op ∈ demoQuiesce, op.ok := by decide
+    intro op hop
+    rcases List.mem_append.1 hop with hm | hm
+    · exact h0 op hm
+    · exact h op hm, rfl⟩
+
+/-- suspended: a timing and a waiting thread, the flag is down -/
+example : (runOps {} demoQuiesce).outOfFuel = false ∧
+    ((runOps {} demoQuiesce).threads.map (fun e => (e.1, e.2.ts))) = [(100, .timing), (101, .waiting)] ∧
+    idleFlag (runOps {} demoQuiesce) = false := by decide +kernel
+
+/-- quiescent after the frame: no thread record at all, everything empty, the flag is up -/
+example : (runOps {} (demoQuiesce ++ [.step 5])).outOfFuel = false ∧
+    (runOps {} (demoQuiesce ++ [.step 5])).threads = [] ∧
+    (runOps {} (demoQuiesce ++ [.step 5])).timer.elems = [] ∧
+    (runOps {} (demoQuiesce ++ [.step 5])).notify = [] ∧
+    idleFlag (runOps {} (demoQuiesce ++ [.step 5])) = true := by decide +kernel
+
+/-- `Reset()` in the suspended state destroys both threads -/
+example : (hostReset (runOps {} demoQuiesce)).outOfFuel = false ∧ (hostReset (runOps {} demoQuiesce)).threads = [] ∧
+    idleFlag (hostReset (runOps {} demoQuiesce)) = true := by decide +kernel
 
 end Morfuse.Sched
